@@ -679,8 +679,32 @@ fn build_bytes_in(cfg: &Cfg, how: How, dirty_buffer: bool) -> Result<Vec<u8>, WO
     })
 }
 
-/// Every input handed to a parser lives in its own exact-size heap allocation
-/// (no slack), so that ASan / Miri / memcheck see any read past the end.
-pub fn exact(b: &[u8]) -> Box<[u8]> {
-    b.to_vec().into_boxed_slice()
+/// Every input handed to a parser lives in its own heap allocation that *ends* exactly where the
+/// input ends (no slack behind it), so that ASan / Miri / memcheck see any read past the end. The
+/// input starts 0, 1, 2 or 3 bytes into the allocation (rotating per call), so that inputs are seen
+/// at every address residue mod 4, as packets sliced out of a receive buffer are: a parser must not
+/// depend on the alignment of its input.
+pub struct Exact {
+    buf: Box<[u8]>,
+    off: usize,
+}
+impl std::ops::Deref for Exact {
+    type Target = [u8];
+    fn deref(&self) -> &[u8] {
+        &self.buf[self.off..]
+    }
+}
+thread_local! {
+    static EXACT_ROT: std::cell::Cell<usize> = const { std::cell::Cell::new(0) };
+}
+pub fn exact(b: &[u8]) -> Exact {
+    let k = EXACT_ROT.with(|c| {
+        let v = c.get();
+        c.set(v.wrapping_add(1));
+        v % 4
+    });
+    let mut v = Vec::with_capacity(b.len() + k);
+    v.extend(std::iter::repeat(0xa5u8).take(k));
+    v.extend_from_slice(b);
+    Exact { buf: v.into_boxed_slice(), off: k }
 }
